@@ -820,12 +820,15 @@ class Facts:
         return c["val"]["int"]
 
     def closures_of(self, name):
-        out = [f for n, f in self.fns.items() if n.startswith(name + "::{closure")]
+        names = [n for n in self.fns if n.startswith(name + "::{closure")]
         # closures of the private helpers that fn_inl() merged into `name` belong to the merged body
         for child in self._inlined_children.get(name, ()):
-            out += [f for n, f in self.fns.items() if n.startswith(child + "::{closure")]
-        self.accessed.update(f.name for f in out)
-        return out
+            names += [n for n in self.fns if n.startswith(child + "::{closure")]
+        self.accessed.update(names)
+        if os.environ.get("VERIF_NO_INLINE"):
+            return [self.fns[n] for n in names]
+        # a closure, too, is read with the unnamed private helpers of its enclosing function merged in
+        return [self.fn_inl(n, family=name.split("::{closure")[0]) for n in names]
 
     # ---------------------------------------------------------------- helper inlining (opt-in view)
     def _inlinable(self, callee, into):
@@ -850,7 +853,7 @@ class Facts:
         # passed around as a function value somewhere: not a plain helper
         return True
 
-    def fn_inl(self, name, depth=3):
+    def fn_inl(self, name, depth=3, family=None):
         """`name` with its private single-caller helpers merged in (MIR-level inlining: parameters become locals assigned
         from the call's operands, `return` becomes an assignment to the call's destination and a jump to its
         continuation). A rule that reads this view is indifferent to `extract function` / `inline function` refactorings of
@@ -859,7 +862,8 @@ class Facts:
             return self._inl_cache[name]
         f = self.fn(name, raw=True)
         import copy
-        if not any(b["t"]["k"] == "call" and self._inlinable(strip_generics(b["t"]["callee"]), name) for b in f.blocks if not b.get("cleanup")):
+        into = family or name
+        if not any(b["t"]["k"] == "call" and self._inlinable(strip_generics(b["t"]["callee"]), into) for b in f.blocks if not b.get("cleanup")):
             self._inlined_children.setdefault(name, [])
             self._inl_cache[name] = f
             return f
@@ -895,7 +899,7 @@ class Facts:
                 if t["k"] != "call" or blk.get("cleanup"):
                     continue
                 callee = strip_generics(t["callee"])
-                if not self._inlinable(callee, name):
+                if not self._inlinable(callee, into):
                     continue
                 C = self.fns[callee].mir
                 if len(t["args"]) != C["argc"]:
